@@ -90,7 +90,7 @@ def decode(text, diags):
     return out
 
 
-def drive(verif, tag, cases, judge, nservers=8, cpu_limit=60.0, reuse_uri=False):
+def drive(verif, tag, cases, judge, nservers=8, cpu_limit=60.0, reuse_uri=False, then_judge=None):
     """Feed the cases to `nservers` server sessions; judge(case, status, diagnostics) -> findings."""
     base = os.path.join(verif, "target", "run", "lsx_" + tag)
     shutil.rmtree(base, ignore_errors=True)
@@ -124,6 +124,19 @@ def drive(verif, tag, cases, judge, nservers=8, cpu_limit=60.0, reuse_uri=False)
                     stats["answered"] += status == "ok"
                     stats["diagnostics"] += len(diags)
                     findings.extend(judge(c, status, diags))
+                if status == "ok" and c.get("then") and then_judge is not None:
+                    # the settings change while the document stays open (it was never saved: there is no file to re-read)
+                    st2 = dict(paths)
+                    st2.update(c["then"]["settings"])
+                    s.settings = {"harper-ls": st2}
+                    n1 = s.n_publishes(uri)
+                    s.notify("workspace/didChangeConfiguration", {"settings": s.settings})
+                    status2 = await_publish(s, uri, n1, cpu_limit)
+                    diags2 = decode(c["text"], s.last_diagnostics(uri)) if status2 == "ok" else []
+                    with lock:
+                        stats["config_changes"] = stats.get("config_changes", 0) + 1
+                        findings.extend(then_judge(c, status2, diags2))
+                    status = status2
                 if status == "ok":
                     s.notify("textDocument/didClose", {"textDocument": {"uri": uri}})
                     try:
@@ -240,7 +253,22 @@ def run_c11(tier, seed, scale, verif):
                 samples.append({"language_id": c["lang"], "dialect": c["settings"].get("dialect"), "switches": len(c["settings"]["linters"]), "lints": len(exp)})
         return out
 
-    findings, inc, stats = drive(verif, "c11", cases, judge)
+    def then_judge(c, status, diags):
+        if status != "ok":
+            return [F("C11", "ls.after-config-change.no-publish", c, "after workspace/didChangeConfiguration the open document got no new diagnostics (%s)" % status)]
+        exp = sorted((a, b, m) for a, b, m in c["then"]["expected"])
+        got = sorted(diags, key=lambda x: (x[0] if x[0] is not None else -1, x[1] if x[1] is not None else -1, x[2]))
+        if exp == got:
+            return []
+        missing = [x for x in exp if x not in got]
+        extra = [x for x in got if tuple(x) not in [tuple(y) for y in exp]]
+        kind = "missing" if missing else "extra"
+        m = (missing or extra or [(0, 0, "multiplicity")])[0]
+        return [F("C11", "ls.after-config-change.%s@%s" % (kind, norm_msg(m[2])), dict(c, settings={"first": c["settings"], "then": c["then"]["settings"]}),
+                  "after the settings changed to dialect %s with %d rule switches (document open, never saved) the library reports %d lints, the server publishes %d; first %s: %r" % (
+                      c["then"]["settings"].get("dialect"), len(c["then"]["settings"].get("linters") or {}), len(exp), len(got), kind, m))]
+
+    findings, inc, stats = drive(verif, "c11", cases, judge, then_judge=then_judge)
     return result(t0, cases, findings, inc, stats, shapes, samples, "harper-ls vs library under random dialects and `linters` maps: %(cases)d documents, %(answered)d answered, %(diagnostics)d diagnostics compared")
 
 
